@@ -3,6 +3,8 @@ package simrt
 import (
 	"reflect"
 	"runtime"
+	"sync"
+	"time"
 )
 
 // Channel emulation: instrumented code keeps its real channel values (so types are untouched)
@@ -210,44 +212,86 @@ func GoFunc(fn func()) {
 }
 
 // SetFinalizer replaces runtime.SetFinalizer in instrumented code. The collector does not run during
-// a simulation, so inside a run the finalizer is only recorded; an engine that knows an object to be
-// unreachable (a secret whose creation failed and was never handed out) can run it with RunFinalizers.
+// a simulation, so inside a run the finalizer is only recorded. An engine can run it either because
+// it knows the object to be unreachable (RunFinalizers: a secret whose creation failed and was never
+// handed out) or because the real collector says so (Sim.TrackReachability + CollectAndFinalize: the
+// object is then not kept alive by the record, a real finalizer only notes that it was collected).
 func SetFinalizer(obj any, finalizer any) {
 	s := current.Load()
 	if s == nil {
 		runtime.SetFinalizer(obj, finalizer)
 		return
 	}
+	id := reflect.ValueOf(obj).Pointer()
 	if finalizer == nil {
 		for i := range s.finalizers {
-			if s.finalizers[i].obj == obj {
+			if s.finalizers[i].id == id {
 				s.finalizers[i].fn = nil
 			}
 		}
+		if s.TrackReachability {
+			runtime.SetFinalizer(obj, nil)
+		}
 		return
 	}
-	s.finalizers = append(s.finalizers, finalizerRec{obj: obj, fn: finalizer})
+	rec := &finalizerRec{id: id, fn: finalizer}
+	if s.TrackReachability {
+		// the record must not keep the object alive: the real finalizer hands it back when, and only
+		// when, the collector found it unreachable
+		runtime.SetFinalizer(obj, func(o any) { rec.mu.Lock(); rec.obj, rec.collected = o, true; rec.mu.Unlock() })
+	} else {
+		rec.obj = obj
+	}
+	s.finalizers = append(s.finalizers, rec)
 }
 
 type finalizerRec struct {
-	obj, fn any
+	id        uintptr
+	fn        any
+	mu        sync.Mutex
+	obj       any
+	collected bool
 }
 
 // Finalizers is the number of finalizers registered so far in this run.
 func (s *Sim) Finalizers() int { return len(s.finalizers) }
+
+func (s *Sim) runFinalizer(f *finalizerRec) {
+	fn, obj := f.fn, f.obj
+	f.fn = nil
+	reflect.ValueOf(fn).Call([]reflect.Value{reflect.ValueOf(obj)})
+}
 
 // RunFinalizers runs (once) the finalizers registered with indices [from, to): the harness vouches
 // that their objects are unreachable.
 func (s *Sim) RunFinalizers(from, to int) int {
 	n := 0
 	for i := from; i < to && i < len(s.finalizers); i++ {
-		f := s.finalizers[i]
-		if f.fn == nil {
-			continue
+		if f := s.finalizers[i]; f.fn != nil && f.obj != nil {
+			s.runFinalizer(f)
+			n++
 		}
-		s.finalizers[i].fn = nil
-		reflect.ValueOf(f.fn).Call([]reflect.Value{reflect.ValueOf(f.obj)})
-		n++
+	}
+	return n
+}
+
+// CollectAndFinalize runs the real collector and then, as tasks' finalizers would, the recorded
+// finalizer of every object it found unreachable (Sim.TrackReachability must have been set before
+// the objects were created).
+func (s *Sim) CollectAndFinalize() int {
+	for i := 0; i < 3; i++ {
+		runtime.GC()
+		time.Sleep(2 * time.Millisecond) // real time: the runtime's finalizer goroutine has to get a turn
+	}
+	n := 0
+	for _, f := range s.finalizers {
+		f.mu.Lock()
+		ready := f.collected && f.fn != nil
+		f.mu.Unlock()
+		if ready {
+			s.runFinalizer(f)
+			n++
+		}
 	}
 	return n
 }
